@@ -17,6 +17,7 @@ CONSTANTS Top,        \* boundaries 0..Top
           MaxDepth,   \* operations per behaviour
           MergeRule,  \* "asis": handleMergeCommand before the repair; "adjacent": repaired code
           Ops,        \* enabled operation kinds
+          Script,     \* generation only: <<>> or, per step, the set of operation kinds allowed at that step
           Emit        \* TRUE: print every complete behaviour (generation mode)
 
 New == 0  Running == 1  Removing == 2  Tombstone == 3
@@ -61,8 +62,13 @@ Init == \E S \in Partitions, rev \in BOOLEAN :
            /\ init = [i \in 1..Cardinality(S) |-> [id |-> i, s |-> cat[i].s, e |-> cat[i].e]]
            /\ hist = <<>> /\ taint = {}
 
+NoScript   == <<>>
+\* lifecycle behaviours: a state change, a manifest rewrite, a restart, then every state change again
+LifeScript == <<{"SetState", "StopPeer"}, {"Rewrite"}, {"Reload"}, {"SetState"}>>
+
 Log(rec) == hist' = Append(hist, rec)
-Can(op)  == op \in Ops /\ Len(hist) < MaxDepth
+Can(op)  == /\ op \in Ops /\ Len(hist) < MaxDepth
+            /\ (Script = <<>> \/ (Len(hist) < Len(Script) /\ op \in Script[Len(hist) + 1]))
 \* updateRegion: manifest edit, then the in-memory entry
 Write(c) == cat' = c /\ disk' = c
 
@@ -139,6 +145,13 @@ SetState(r, st) ==
           ELSE UNCHANGED <<cat, disk, covered>>
     /\ UNCHANGED <<nextId, init, taint>>
 
+(* Manifest rewrite (explicit Rewrite() or the size threshold): the current version is     *)
+(* written out as a snapshot into a new manifest file; its content must not change.        *)
+Rewrite ==
+    /\ Can("Rewrite")
+    /\ Log([op |-> "Rewrite"])
+    /\ UNCHANGED <<cat, disk, nextId, covered, init, taint>>
+
 (* Restart: the store is rebuilt from the manifest.                                        *)
 Reload ==
     /\ Can("Reload")
@@ -149,6 +162,7 @@ Reload ==
 Next == \/ \E p \in DOMAIN cat, k \in 0..(Top - 1) : Split(p, k)
         \/ \E t, s \in DOMAIN cat : Merge(t, s)
         \/ \E r \in DOMAIN cat : StopPeer(r) \/ Remove(r) \/ \E st \in States : SetState(r, st)
+        \/ Rewrite
         \/ Reload
 Spec == Init /\ [][Next]_vars
 
